@@ -64,7 +64,7 @@ let handle (x : sexp) : Stdlib.String.t =
   | L [A "graph"; root; indent; w; rw; L heap; L info] ->
       let h = List.map gnode_of heap in
       let (res, st) = gprint h (ginfo_of info) (nat_of_int (List.length h + 1)) (natv root) in
-      let ws = String.concat "," (List.map (fun r -> string_of_int (int_of_nat r)) st.g_warns) in
+      let ws = String.concat "," (List.map (fun (r, esc) -> string_of_int (int_of_nat r) ^ (if esc then "e" else "")) st.g_warns) in
       (match res with
        | GExc -> "X | W " ^ ws
        | GFuel -> "FUEL"
